@@ -79,4 +79,131 @@ def archive {γ} (H : List Node → Id) (chunk : γ → List Id) (len : γ → N
     some { root := root, treeAdds := ta'.adds, dataAdds := (steps.map (·.2.1)).flatten,
            reads := steps.filterMap (·.2.2), summary := ta'.summary }
 
+/-! ## Part 2: the packer pipeline as a transition system -/
+
+inductive BT where
+  | data
+  | tree
+  deriving DecidableEq, Repr
+
+abbrev Key := BT × Id
+
+/-- One `Packer` (there is one per blob type). -/
+structure Pk where
+  /-- passed the two early `filter`s, on their way through `process_data` to `add_raw` (FIFO: `readahead` and
+  `parallel_map` keep the order) -/
+  pending   : List Id := []
+  /-- `BasicPacker.index.blobs` of the open pack -/
+  cur       : List Id := []
+  /-- packs handed to the file-writer `Actor` (`bounded(1)` queue and its `readahead` stages), not yet written -/
+  inflight  : List (List Id) := []
+  /-- packs written to the backend (`FileWriterHandle::process`), `indexer.add` not yet run -/
+  unindexed : List (List Id) := []
+  deriving Repr
+
+structure PSt where
+  /-- `true`: `Indexer.indexed` is keyed by (type, id) — the code after the C07 repair; `false`: the set is a
+  `BTreeSet<BlobId>` shared by the tree and the data packer (the code as found) -/
+  typed   : Bool
+  indexed : List Key := []                  -- `Indexer.indexed`
+  data    : Pk := {}
+  tree    : Pk := {}
+  packs   : List (BT × List Id) := []       -- pack files on the backend, in write order
+  index   : List (BT × List Id) := []       -- packs listed by the indexer (`IndexFile.packs`)
+  deriving Repr
+
+def PSt.pk (s : PSt) : BT → Pk
+  | .data => s.data
+  | .tree => s.tree
+
+def PSt.setPk (s : PSt) (t : BT) (p : Pk) : PSt :=
+  match t with
+  | .data => { s with data := p }
+  | .tree => { s with tree := p }
+
+/-- the key under which the indexer remembers a blob -/
+def ikey (typed : Bool) (t : BT) (id : Id) : Key := if typed then (t, id) else (.data, id)
+
+/-- `Indexer::has` as called by the packer of type `t` -/
+def PSt.indexerHas (s : PSt) (t : BT) (id : Id) : Bool := s.indexed.contains (ikey s.typed t id)
+
+inductive Ev where
+  /-- `Packer::add(data, id)` and the early filters `!indexer.has(id)`, `!raw_packer.has(id)` -/
+  | enter (t : BT) (id : Id)
+  /-- the late filter `!indexer.has(id)` and `RawPacker::add_raw` (→ `BasicPacker::add_raw`: `if self.has(id) return`) for
+  the oldest pending blob -/
+  | commit (t : BT)
+  /-- `should_save()` held (size, count or age — any pack boundary): `save()` hands the open pack to the writer -/
+  | flush (t : BT)
+  /-- file writer: `be.write_bytes(FileType::Pack, …)` of the oldest pack in flight -/
+  | write (t : BT)
+  /-- file writer: `indexer.add(pack)` for the oldest written pack -/
+  | idx (t : BT)
+  deriving Repr
+
+def commitOne (s : PSt) (t : BT) : PSt :=
+  let p := s.pk t
+  match p.pending with
+  | [] => s
+  | id :: rest =>
+    if s.indexerHas t id then s.setPk t { p with pending := rest }
+    else if p.cur.contains id then s.setPk t { p with pending := rest }
+    else s.setPk t { p with pending := rest, cur := p.cur ++ [id] }
+
+def flushOne (s : PSt) (t : BT) : PSt :=
+  let p := s.pk t
+  if p.cur.isEmpty then s else s.setPk t { p with cur := [], inflight := p.inflight ++ [p.cur] }
+
+def writeOne (s : PSt) (t : BT) : PSt :=
+  let p := s.pk t
+  match p.inflight with
+  | [] => s
+  | pack :: rest =>
+    ({ s with packs := s.packs ++ [(t, pack)] }).setPk t { p with inflight := rest, unindexed := p.unindexed ++ [pack] }
+
+def idxOne (s : PSt) (t : BT) : PSt :=
+  let p := s.pk t
+  match p.unindexed with
+  | [] => s
+  | pack :: rest =>
+    ({ s with indexed := s.indexed ++ pack.map (ikey s.typed t), index := s.index ++ [(t, pack)] }).setPk t
+      { p with unindexed := rest }
+
+def step (s : PSt) : Ev → PSt
+  | .enter t id =>
+    let p := s.pk t
+    if s.indexerHas t id then s
+    else if p.cur.contains id then s
+    else s.setPk t { p with pending := p.pending ++ [id] }
+  | .commit t => commitOne s t
+  | .flush t => flushOne s t
+  | .write t => writeOne s t
+  | .idx t => idxOne s t
+
+def runEvs (s : PSt) (evs : List Ev) : PSt := evs.foldl step s
+
+/-- repeat `f` `n` times -/
+def iter (f : PSt → PSt) : Nat → PSt → PSt
+  | 0, s => s
+  | n + 1, s => iter f n (f s)
+
+/-- `Packer::finalize`: the channel is closed, the pipeline drains (`commit`s), `RawPacker::finalize` saves a
+non-empty open pack, `Actor::finalize` waits until every pack is written and indexed. -/
+def finalizePk (s : PSt) (t : BT) : PSt :=
+  let s := iter (commitOne · t) (s.pk t).pending.length s
+  let s := flushOne s t
+  let s := iter (writeOne · t) (s.pk t).inflight.length s
+  iter (idxOne · t) (s.pk t).unindexed.length s
+
+/-- `file_archiver.finalize()`, `tree_archiver.finalize()`, `indexer.finalize()` (the index file is saved with
+every pack the indexer holds). -/
+def finalizeAll (s : PSt) : PSt := finalizePk (finalizePk s .data) .tree
+
+def keysOf (packs : List (BT × List Id)) : List Key := (packs.map (fun p => p.2.map (fun id => (p.1, id)))).flatten
+
+def entered : List Ev → List Key
+  | [] => []
+  | .enter t id :: r => (t, id) :: entered r
+  | _ :: r => entered r
+
 end Rustic.Archive
